@@ -41,6 +41,7 @@ type target struct {
 	Locals []string // fragment mode: the assigned variables whose right-hand sides are translated
 	Lean   string   // Lean name of the definition (fragment mode: prefix)
 	Group  string   // output file Gen/Pure<Group>.lean (one per property family, so that a change in one module cannot break another property's obligations)
+	Opaque bool     // whole-function mode: calls outside the library surface are environment reads (extra parameters)
 	Conds  bool     // fragment mode: the condition of every other `if` too (branching that is not a rejection)
 	Guards bool     // fragment mode: also the conditions of the `if … { return …, err }` statements, in order
 }
@@ -91,6 +92,8 @@ var targets = []target{
 		Locals: []string{"supply_OutgoingSupply"}, Guards: true, Conds: true},
 	{Group: "Htlc", Mod: "htlc", Pkg: "keeper", Func: "Keeper.DecrementOutgoingAssetSupply", Lean: "DecOutgoing",
 		Locals: []string{"supply_OutgoingSupply"}, Guards: true, Conds: true},
+	{Group: "HtlcId", Mod: "htlc", Pkg: "types", Func: "GetHashLock", Lean: "GetHashLock"},
+	{Group: "HtlcId", Mod: "htlc", Pkg: "types", Func: "GetID", Lean: "GetID", Opaque: true},
 	{Group: "Htlc", Mod: "htlc", Pkg: "keeper", Func: "Keeper.createHTLT", Lean: "createHTLT", Guards: true, Conds: true},
 	{Group: "Htlc", Mod: "htlc", Pkg: "keeper", Func: "Keeper.UpdateTimeBasedSupplyLimits", Lean: "UpdateWindow",
 		Locals: []string{"newTimeElapsed", "supply_TimeElapsed"}, Guards: true, Conds: true},
@@ -124,6 +127,7 @@ const (
 	kBig             // *big.Int
 	kCoin
 	kCoins
+	kBytes
 	kBool
 	kStr
 	kNat // unsigned machine integers
@@ -151,6 +155,11 @@ func kindOf(t types.Type) kind {
 	case "error":
 		return kErr
 	}
+	if sl, ok := t.Underlying().(*types.Slice); ok {
+		if b, ok := sl.Elem().Underlying().(*types.Basic); ok && b.Kind() == types.Uint8 {
+			return kBytes // []byte, HexBytes, AccAddress
+		}
+	}
 	if b, ok := t.Underlying().(*types.Basic); ok {
 		switch {
 		case b.Info()&types.IsBoolean != 0:
@@ -176,6 +185,8 @@ func leanType(k kind) string {
 		return "Coin"
 	case kCoins:
 		return "List Coin"
+	case kBytes:
+		return "ByteArray"
 	case kBool, kErr:
 		return "Bool"
 	case kStr:
@@ -238,12 +249,14 @@ var funcs = map[string]method{
 	"cosmossdk.io/math.NewIntFromBigInt":  {"NewIntFromBigInt", true, kInt},
 	"cosmossdk.io/math.NewIntWithDecimal": {"NewIntWithDecimal", true, kInt},
 	"cosmossdk.io/math.LegacyZeroDec":     {"LegacyZeroDec", false, kDec}, "cosmossdk.io/math.LegacyOneDec": {"LegacyOneDec", false, kDec},
-	"cosmossdk.io/math.LegacyNewDec":                   {"LegacyNewDec", false, kDec},
-	"cosmossdk.io/math.LegacyNewDecFromInt":            {"LegacyNewDecFromInt", false, kDec},
-	"cosmossdk.io/math.LegacyNewDecWithPrec":           {"LegacyNewDecWithPrec", true, kDec},
-	"math/big.NewInt":                                  {"Big_NewInt", false, kBig},
-	"github.com/cosmos/cosmos-sdk/types.NewCoin":       {"NewCoin", true, kCoin},
-	"github.com/cosmos/cosmos-sdk/types.ValidateDenom": {"ValidateDenom", false, kErr},
+	"cosmossdk.io/math.LegacyNewDec":                       {"LegacyNewDec", false, kDec},
+	"cosmossdk.io/math.LegacyNewDecFromInt":                {"LegacyNewDecFromInt", false, kDec},
+	"cosmossdk.io/math.LegacyNewDecWithPrec":               {"LegacyNewDecWithPrec", true, kDec},
+	"math/big.NewInt":                                      {"Big_NewInt", false, kBig},
+	"github.com/cosmos/cosmos-sdk/types.NewCoin":           {"NewCoin", true, kCoin},
+	"github.com/cosmos/cosmos-sdk/types.ValidateDenom":     {"ValidateDenom", false, kErr},
+	"github.com/cosmos/cosmos-sdk/types.Uint64ToBigEndian": {"Uint64ToBigEndian", false, kBytes},
+	"github.com/cometbft/cometbft/crypto/tmhash.Sum":       {"tmhash_Sum", false, kBytes},
 }
 
 type param struct {
@@ -446,6 +459,9 @@ func (t *tr) expr(e ast.Expr, out *[]string) (string, kind) {
 // knownCall: the callee is a library method / function of the tables, a conversion or a translated function
 func (t *tr) knownCall(c *ast.CallExpr) bool {
 	info := t.pkg.TypesInfo
+	if id, ok := c.Fun.(*ast.Ident); ok && id.Name == "append" {
+		return true
+	}
 	if tv, ok := info.Types[c.Fun]; ok && tv.IsType() {
 		return true
 	}
@@ -508,6 +524,16 @@ func isNewBig(e ast.Expr) bool {
 
 func (t *tr) call(c *ast.CallExpr, out *[]string) (string, kind) {
 	info := t.pkg.TypesInfo
+	if id, ok := c.Fun.(*ast.Ident); ok && id.Name == "append" && len(c.Args) == 2 && c.Ellipsis.IsValid() {
+		if _, isBuiltin := info.ObjectOf(id).(*types.Builtin); isBuiltin {
+			a, ak := t.expr(c.Args[0], out)
+			b, bk := t.expr(c.Args[1], out)
+			if ak == kBytes && bk == kBytes {
+				return "(Bytes_append " + a + " " + b + ")", kBytes // the value of append(a, b...)
+			}
+			t.fail(c, "append on non-byte slices")
+		}
+	}
 	// conversions int64(x), uint64(x), int(x)
 	if tv, ok := info.Types[c.Fun]; ok && tv.IsType() && len(c.Args) == 1 {
 		a, ak := t.expr(c.Args[0], out)
@@ -515,6 +541,8 @@ func (t *tr) call(c *ast.CallExpr, out *[]string) (string, kind) {
 		switch {
 		case ak == to:
 			return a, to
+		case ak == kStr && to == kBytes:
+			return "(Bytes_ofString " + a + ")", kBytes
 		case ak == kNat && to == kI64:
 			if b, ok := info.TypeOf(c.Args[0]).Underlying().(*types.Basic); ok && (b.Kind() == types.Uint64 || b.Kind() == types.Uint || b.Kind() == types.Uintptr) {
 				return "(I64_wrap (" + a + " : Int))", kI64 // int64(uint64) wraps from 2^63
@@ -580,6 +608,9 @@ func (t *tr) call(c *ast.CallExpr, out *[]string) (string, kind) {
 		if fn, ok := info.ObjectOf(f.Sel).(*types.Func); ok {
 			full := fn.FullName()
 			if m, ok := funcs[full]; ok {
+				if m.lean == "Uint64ToBigEndian" {
+					return emit(m, argsC(c.Args, false))
+				}
 				return emit(m, args(c.Args))
 			}
 			if kindOf(info.TypeOf(c)) == kErr && (strings.HasPrefix(full, "fmt.") || strings.HasPrefix(full, "cosmossdk.io/errors.") || strings.HasPrefix(full, "errors.")) {
@@ -814,8 +845,8 @@ func resType(ks []kind) string {
 }
 
 // whole function
-func translateFunc(p *packages.Package, fd *ast.FuncDecl, lean string, knownGo map[string]string) (def string, err error) {
-	t := &tr{pkg: p, pseen: map[string]bool{}, bound: map[string]kind{}, knownGo: knownGo}
+func translateFunc(p *packages.Package, fd *ast.FuncDecl, lean string, knownGo map[string]string, opaque bool) (def string, err error) {
+	t := &tr{pkg: p, opaque: opaque, pseen: map[string]bool{}, bound: map[string]kind{}, knownGo: knownGo}
 	defer func() {
 		if r := recover(); r != nil {
 			if u, ok := r.(unsupported); ok {
@@ -1049,7 +1080,7 @@ func writeGroup(group, outLean string, load func(string) []*packages.Package) {
 			}
 			continue
 		}
-		d, err := translateFunc(pkg, fd, tg.Lean, knownGo)
+		d, err := translateFunc(pkg, fd, tg.Lean, knownGo, tg.Opaque)
 		if err != nil {
 			untranslated = append(untranslated, tg.Lean+": "+err.Error())
 			continue
